@@ -168,6 +168,43 @@ func bigSources(r *rand.Rand, k int) []source {
 	return out
 }
 
+// errorSiteSources: one small source (and a variant further down the file, with CRLF line ends) per place where the
+// parser, the resolver or the compiler can refuse a syntactically plausible program -- the errors raised AFTER the
+// grammar was satisfied carry positions computed elsewhere than in the lexer -- and per position in which a constant
+// is compiled as a regular expression.  They are always part of the pool.
+func errorSiteSources() []source {
+	base := []string{
+		// parser: context checks
+		`BEGIN { break }`, `BEGIN { continue }`, `BEGIN { next }`, `END { nextfile }`, `function f() { next } BEGIN { f() }`,
+		`BEGIN { return 1 }`, `{ return }`, `function f(a) { function g() {} }`, `function f(f) { }`, `function f(a, a) { }`,
+		`BEGIN { printf }`, `BEGIN { for (x in a b) ; }`, `BEGIN { for (x in) ; }`, `BEGIN { @"x" = 1 }`, `BEGIN { print a[] }`,
+		`BEGIN { x = (1, 2) }`, `BEGIN { (1, 2)
+ (3, 4) }`, `BEGIN { getline < }`, `BEGIN { x = 1 +* 2 }`,
+		// resolver: names and types
+		`function ARGV(k) { return k } BEGIN { print ARGV(1) }`, `function ENVIRON(k) { return k }`, `function FIELDS() { }`,
+		`function NR() { }`, `function x() { } BEGIN { x = 1 }`, `BEGIN { x = 1 } function x() { }`, `function f() { } function f() { }`,
+		`function f(a) { a() }`, `BEGIN { g(1) }`, `function f(a) { } BEGIN { f(1, 2) }`, `function f(a) { a[1] = 1 } BEGIN { f(1 + 1) }`,
+		`function f(a) { a[1] = 1 } BEGIN { x = 1; f(x) }`, `function f(a) { return a + 1 } BEGIN { x[1] = 1; f(x) }`,
+		`BEGIN { x[1] = 1; x = 2 }`, `BEGIN { x = 1; x[1] = 2 }`, `BEGIN { split("a", NR) }`, `BEGIN { length(x); x[1] }`,
+		`function f(a) { return length(a) } BEGIN { print f(1); x[1] = 1; print f(x) }`, `function f(a) { g(a) } function g(b) { b[1] } BEGIN { f(1) }`,
+		`BEGIN { $ENVIRON = 1 }`, `BEGIN { ARGV = 1 }`, `BEGIN { for (k in NR) ; }`, `BEGIN { delete NF }`, `BEGIN { x in NR }`,
+		// constants compiled as regular expressions
+		`$1 ~ "c++" { n++ }`, `$1 !~ "(" { n++ }`, `BEGIN { if ("a" ~ "[z-a]") x = 1 }`, `BEGIN { match("a", "(") }`, `BEGIN { split("a", b, "[") }`,
+		`BEGIN { sub("*", "x") }`, `BEGIN { gsub("a{2,1}", "x") }`, `BEGIN { x = "a" ~ "\\" }`, `/(/ { }`, `/[/ { }`, `/a{2,1}/`, `!/)/`,
+		`BEGIN { if (/+/) x = 1 }`, `BEGIN { x = $0 ~ /a(/ }`, `BEGIN { FS = "(" } { print $1 }`, `BEGIN { RS = "[a" } { print }`,
+		"/caf\xc3/ { print }", "BEGIN { if (!/\xff/) x = 1 }", "$0 ~ \"\xff(\"", `BEGIN { x = "a" ~ /\y/ }`,
+		// valid neighbours (must be accepted)
+		`$1 ~ "c+" { n++ }`, `function argv(k) { return k } BEGIN { print argv(1) }`, `BEGIN { if (0) break }`,
+	}
+	var out []source
+	for i, b := range base {
+		out = append(out, source{fmt.Sprintf("error-site:%d", i), []byte(b)})
+		out = append(out, source{fmt.Sprintf("error-site:%d/shifted", i), []byte("# c\r\nBEGIN { y = 1 }\r\n\r\n  " + b + "\r\n")})
+		out = append(out, source{fmt.Sprintf("error-site:%d/after-function", i), []byte("function zz(p,\n  q) { return p q }\n" + b)})
+	}
+	return out
+}
+
 // pool of sources for the given seed: whole corpus programs and embedded test
 // sources (sampled), and nmut mutated windows.
 func pool(seed int64, nwhole, nmut, nbig int, maxWin int) []source {
@@ -194,6 +231,7 @@ func pool(seed int64, nwhole, nmut, nbig int, maxWin int) []source {
 		out = append(out, source{s.origin + "#" + how, m})
 	}
 	out = append(out, bigSources(r, nbig)...)
+	out = append(out, errorSiteSources()...)
 	return out
 }
 
